@@ -197,11 +197,12 @@ class Abstraction:
         if isinstance(s, ast.If):
             return ["if", ast.unparse(s.test) in TC_TESTS, self.stmts(s.body), self.stmts(s.orelse)]
         if isinstance(s, (ast.For, ast.AsyncFor, ast.While)):
-            return ["block", self.stmts(s.body) + self.stmts(s.orelse)]
+            return ["block", [["sub", False, self.stmts(s.body)], ["sub", False, self.stmts(s.orelse)]]]
         if isinstance(s, (ast.With, ast.AsyncWith)):
             return ["block", self.stmts(s.body)]
         if isinstance(s, (ast.Try, getattr(ast, "TryStar", ast.Try))):
-            ch = self.stmts(s.body) + [["sub", True, self.stmts(h.body)] for h in s.handlers] + self.stmts(s.orelse) + self.stmts(s.finalbody)
+            ch = [["sub", False, self.stmts(s.body)]] + [["sub", True, self.stmts(h.body)] for h in s.handlers] + \
+                 [["sub", False, self.stmts(s.orelse)], ["sub", False, self.stmts(s.finalbody)]]
             return ["block", ch]
         if isinstance(s, ast.Match):
             return ["block", [["sub", False, self.stmts(c.body)] for c in s.cases]]
@@ -604,7 +605,7 @@ class Gen:
             forms.append("from os.path import *")
         if not self.exe:
             forms += [f"import pkg.sub.{n}", f"from pkg import {n}", f"from . import {n}", f"from .rel import {n}", f"from .. import {n} as {self.name()}",
-                      f"from m import {n}", f"from m import {n} as {self.name()}", f"from pkg import {n} as {n}",
+                      f"from m import {n}", f"from m import {n} as {self.name()}", f"from m.C import {n}", f"from pkg import {n} as {n}",
                       f"from . import {n} as {n}", "from pkg import (\n" + "    " * ind + f"    {n},\n" + "    " * ind + f"    {self.name()},\n" + "    " * ind + ")"]
         self.emit(ind, self.rng.choice(forms))
 
@@ -626,8 +627,6 @@ class Gen:
             decos = [d for d in decos if not d.endswith((".setter", ".deleter"))]
             if decos and any(d in ("classmethod", "staticmethod", "abc.abstractmethod") for d in decos) and len(decos) > 1:
                 decos = decos[:1]
-        if kind == "init" and any("overload" in d for d in decos) and self.rng.random() < 0.8:
-            decos = [d for d in decos if "overload" not in d]      # keep finding F1 rare
         for d in decos:
             self.emit(ind, "@" + d)
             self.features.add("deco:" + d.split("(")[0].split(".")[-1])
@@ -927,6 +926,7 @@ def node_index(tree):
     for n in ast.walk(tree):
         if isinstance(n, ast.Expr) and isinstance(n.value, ast.Constant) and isinstance(n.value.value, str):
             idx.setdefault(n.value.lineno, n)
+            idx.setdefault(("doc", n.value.lineno), n)
     return idx
 
 
@@ -957,54 +957,6 @@ def walk_objects(mod):
             if not m.is_alias and m.kind.value == "class":
                 yield from rec(m, path + (name,))
     yield from rec(mod, ())
-
-
-def py_gap_f1(tree) -> bool:
-    """Python mirror of gap_overload_in_init_list: an @overload def directly in the body of a class's __init__."""
-    def is_prop(f):
-        return any(deco_text(d) in PROPERTY_DECOS for d in f.decorator_list)
-    for cls in ast.walk(tree):
-        if isinstance(cls, ast.ClassDef):
-            for s, _d, _c in level_statements(cls.body):
-                if isinstance(s, (ast.FunctionDef, ast.AsyncFunctionDef)) and s.name == "__init__" and not is_prop(s):
-                    for t, _d2, _c2 in level_statements(s.body):
-                        if isinstance(t, (ast.FunctionDef, ast.AsyncFunctionDef)) and is_overload_def(t) and not is_prop(t):
-                            return True
-    return False
-
-
-def py_gap_f7(tree, mname) -> bool:
-    """Classifier of finding F7: an import whose absolute target is <path of a class>.<name> while that class defines
-    `name` decorated with @<name>.setter / @<name>.deleter."""
-    targets = set()
-    for s in ast.walk(tree):
-        if isinstance(s, ast.ImportFrom):
-            for a in s.names:
-                targets.add((mname + "." if s.level > 0 else "") + (s.module + "." if s.module else "") + a.name)
-        elif isinstance(s, ast.Import):
-            for a in s.names:
-                if a.asname:
-                    targets.add(a.name)
-
-    def rec(body, path):
-        for s, _d, _c in level_statements(body):
-            if isinstance(s, (ast.FunctionDef, ast.AsyncFunctionDef)):
-                if any(deco_text(d) in (s.name + ".setter", s.name + ".deleter") for d in s.decorator_list) and path + "." + s.name in targets:
-                    return True
-                if rec(s.body, path + "." + s.name):
-                    return True
-            elif isinstance(s, ast.ClassDef) and rec(s.body, path + "." + s.name):
-                return True
-        return False
-    return rec(tree.body, mname)
-
-
-def classify_exception(e, tree, mname):
-    if isinstance(e, TypeError) and py_gap_f1(tree):
-        return "C01-F1"
-    if isinstance(e, KeyError) and py_gap_f7(tree, mname):
-        return "C01-F7"
-    return None
 
 
 def source_tables():
@@ -1160,7 +1112,7 @@ def direct_checks(case, tree, mod, rec):
                 fails.append(("imports", f"{where}: alias {name!r} targets {m.target_path}, the import statement gives {eimp[name]}", None))
             # attribute labels of a name bound exactly once at this level (no forwarding possible)
             bs1 = sup.get(name, [])
-            if not m.is_alias and m.kind.value == "attribute" and len(bs1) == 1 and bs1[0]["kind"] == "attribute" and not bs1[0].get("chained"):
+            if not m.is_alias and m.kind.value == "attribute" and len(bs1) == 1 and bs1[0]["kind"] == "attribute":
                 st = idx.get(bs1[0]["lineno"])
                 if bs1[0].get("instance"):
                     expl = {"instance-attribute"}
@@ -1209,17 +1161,6 @@ def direct_checks(case, tree, mod, rec):
     return fails
 
 
-def chained_before(tree, name, lineno):
-    """Some chained assignment (two or more targets) at or before [lineno] has [name] among its targets (finding F3's classifier)."""
-    for n in ast.walk(tree):
-        if isinstance(n, ast.Assign) and len(n.targets) > 1 and n.lineno <= lineno:
-            for t in n.targets:
-                if (isinstance(t, ast.Name) and t.id == name) or \
-                        (isinstance(t, ast.Attribute) and isinstance(t.value, ast.Name) and t.value.id == "self" and t.attr == name):
-                    return True
-    return False
-
-
 def attribute_doc_check(where, path, obj, node, tree, idx, parent):
     """Attribute docstring = the string statement immediately following an assignment of that name in the same block
     (Griffe documents forwarding the docstring of an earlier assignment of the same name when the later one has none)."""
@@ -1247,7 +1188,7 @@ def attribute_doc_check(where, path, obj, node, tree, idx, parent):
     if ds is None:
         return fails
     # a docstring without a following string: must be forwarded from an earlier binding of the same name
-    dnode = idx.get(ds.lineno)
+    dnode = idx.get(("doc", ds.lineno)) or idx.get(ds.lineno)
     prev = None
     for n in ast.walk(tree):
         for field in ("body", "orelse", "finalbody"):
@@ -1271,12 +1212,8 @@ def attribute_doc_check(where, path, obj, node, tree, idx, parent):
         names.add(name)
     if name in names and not first_of_branch:
         return fails        # forwarded from an earlier assignment / property of the same name
-    if first_of_branch:
-        fails.append(("attr-docstring", f"{where}: docstring taken from the first statement of an else/finally branch (line {ds.lineno})", "C01-F2"))
-    elif chained_before(tree, name, obj.lineno):
-        fails.append(("attr-docstring", f"{where}: docstring of another target's earlier definition leaked through a chained assignment", "C01-F3"))
-    else:
-        fails.append(("attr-docstring", f"{where}: docstring (line {ds.lineno}) does not follow an assignment of this name", None))
+    fails.append(("attr-docstring", f"{where}: docstring (line {ds.lineno}) does not follow an assignment of this name"
+                                    + (" (first statement of an else/finally block)" if first_of_branch else ""), None))
     return fails
 
 
@@ -1648,13 +1585,8 @@ def gen_total_case(rng):
 # known findings: witnesses (replayed on the implementation on every run) and classifiers
 # =====================================================================================================================
 WITNESS = {
-    "C01-F1": "from typing import overload\nclass C:\n    def __init__(self):\n        @overload\n        def f(): ...\n",
-    "C01-F2": "if c:\n    x = 1\nelse:\n    'not the docstring of x'\n",
-    "C01-F3": "x = 1\n'doc of x'\nasync def y(): ...\nx = y = 2\n",
     "C01-F4": "__all__ = []\ndef f(): ...\n",
-    "C01-F5": "x = 1\n",
     "C01-F6": "from typing import overload\n@overload\ndef f(a: int) -> int: ...\n@overload\ndef f(a: str) -> str: ...\n",
-    "C01-F7": "from m.C import y\nclass C:\n    @y.setter\n    def y(self): ...\n",
 }
 
 
@@ -1664,30 +1596,10 @@ def replay_witnesses(ctx):
 
     def visit(src):
         return griffe.visit("m", filepath=p, code=src)
-    try:
-        visit(WITNESS["C01-F1"])
-        ctx.witness("C01-F1", False)
-    except TypeError:
-        ctx.witness("C01-F1", True)
-    m = visit(WITNESS["C01-F2"])
-    ctx.witness("C01-F2", m["x"].docstring is not None and m["x"].docstring.lineno == 4)
-    m = visit(WITNESS["C01-F3"])
-    ctx.witness("C01-F3", m["y"].docstring is not None and m["y"].docstring.value == "doc of x")
     m = visit(WITNESS["C01-F4"])
     ctx.witness("C01-F4", m["f"].is_public is True and m["f"].is_wildcard_exposed is False)
-    m = visit(WITNESS["C01-F5"])
-    try:
-        m.is_exported
-        ctx.witness("C01-F5", False)
-    except AttributeError:
-        ctx.witness("C01-F5", True)
     m = visit(WITNESS["C01-F6"])
     ctx.witness("C01-F6", "f" not in m.members)
-    try:
-        visit(WITNESS["C01-F7"])
-        ctx.witness("C01-F7", False)
-    except KeyError:
-        ctx.witness("C01-F7", py_gap_f7(ast.parse(WITNESS["C01-F7"]), "m"))
 
 
 # =====================================================================================================================
@@ -1719,7 +1631,6 @@ def check_structural(ctx, cases, label):
         small = {"source": c["source"], "is_init": c["is_init"], "mname": c["mname"]}
         if mv != ms:
             ctx.tie_failure("correspondence", "extracted machine vs extracted level semantics (theorem C01_type_guard_flag)", first_diff(mv, ms), small)
-        gap_f1 = bool(mb[3])
         try:
             mod, rec = run_griffe(c["source"], c["mname"], filepath_for(ctx.scratch, c))
             iv, perr = impl_view(mod, rec)
@@ -1730,7 +1641,7 @@ def check_structural(ctx, cases, label):
             mod, rec, perr = None, None, []
             iv = ["err", type(e).__name__]
             ctx.observe("impl_outcome", "raises:" + type(e).__name__)
-            ctx.property_failure(small, f"griffe.visit raised {type(e).__name__}: {e}", "C01-F1" if (gap_f1 and isinstance(e, TypeError)) else classify_exception(e, tree, c["mname"]))
+            ctx.property_failure(small, f"griffe.visit raised {type(e).__name__}: {e}")
         mo = norm_model_result(mv)
         d = first_diff(mo, iv)
         if d:
@@ -1743,7 +1654,7 @@ def check_structural(ctx, cases, label):
         ctx.observe("events", min(len(rec.calls) // 25 * 25, 300))
         traces.append((iv[5], small))
         # (O) declarative bindings vs the module level of the implementation: order of first binding, survivor
-        if not mb[4]:
+        if not mb[3]:
             names = mb[1]
             surv = {s[0][0]: s[0] for s in mb[2] if s}
             impl_names = list(mod.members)
@@ -1794,7 +1705,7 @@ def check_structural(ctx, cases, label):
             # (O) the declarative bindings (spec side of the theorems) vs CPython: every name the executed module binds
             # through a supported statement is a bound name of the level (overload-only names are omitted by definition: F6)
             ns = c.get("_ns")
-            if ns is not None and not mb[4]:
+            if ns is not None and not mb[3]:
                 sup = supported_bindings(tree.body, path=c["mname"], mname=c["mname"], is_init=c["is_init"])
                 for name in ns:
                     if name in AUTO_MODULE or name not in sup or all(b["overload"] and not b.get("prop") for b in sup[name]):
@@ -1824,7 +1735,7 @@ def check_visibility(ctx, items):
     """items: (vin, real predicate values, case, path)."""
     outs = ctx.model([["vis", v] for v, _r, _c, _p in items])
     for (v, real, case, path), out in zip(items, outs):
-        gen, doc, consistent, gap_empty, gap_noparent = out
+        gen, doc, consistent, gap_empty = out
         ctx.count("visibility_inputs")
         ctx.observe("vis_parent", "none" if not v[6] else "module" if v[7] else "class" if v[8] else "other")
         if not consistent:
@@ -1838,8 +1749,6 @@ def check_visibility(ctx, items):
                 finding = None
                 if name == "is_public" and gap_empty:
                     finding = "C01-F4"
-                if name in ("is_exported", "is_wildcard_exposed") and gap_noparent:
-                    finding = "C01-F5"
                 ctx.observe("direct_fail", "visibility:" + name + ("" if finding is None else ":" + finding))
                 ctx.property_failure(dict(case, path=path, predicate=name), f"{name} of {path} is {r}, documented table says {bool(d)}", finding)
 
@@ -1909,7 +1818,6 @@ def check_totality(ctx, n):
             ctx.observe("stream", "totality")
             for k in kinds:
                 ctx.observe("total_kind", k)
-            gap = bool(v[3]) if isinstance(v, list) and len(v) > 3 else False
             try:
                 run_griffe(src, "m", Path(ctx.scratch) / "m.py", record=False)
                 outcome = "ok"
@@ -1924,7 +1832,7 @@ def check_totality(ctx, n):
             if model_outcome != outcome:
                 ctx.tie_failure("correspondence", "outcome class (model vs griffe.visit) on the totality stream", {"model": model_outcome, "impl": outcome}, {"source": src})
             if outcome != "ok":
-                ctx.property_failure({"source": src}, f"griffe.visit raised {outcome} on a syntactically valid module", "C01-F1" if (gap and outcome == "TypeError") else None)
+                ctx.property_failure({"source": src}, f"griffe.visit raised {outcome} on a syntactically valid module")
 
 
 def corpus_cases():
@@ -1972,7 +1880,7 @@ def search(ctx):
             tree = abstract_module(c["source"], c["mname"], c["is_init"])[1]
             mod, rec = run_griffe(c["source"], c["mname"], filepath_for(ctx.scratch, c))
         except Exception as e:  # noqa: BLE001
-            ctx.property_failure(small, f"griffe.visit raised {type(e).__name__}: {e}", classify_exception(e, ast.parse(c["source"]), c["mname"]))
+            ctx.property_failure(small, f"griffe.visit raised {type(e).__name__}: {e}")
             if ctx.prop_failures:
                 return
             continue
@@ -1991,7 +1899,7 @@ def search(ctx):
             try:
                 run_griffe(src, "m", Path(ctx.scratch) / "m.py", record=False)
             except Exception as e:  # noqa: BLE001
-                ctx.property_failure({"source": src}, f"griffe.visit raised {type(e).__name__}", classify_exception(e, ast.parse(src), "m"))
+                ctx.property_failure({"source": src}, f"griffe.visit raised {type(e).__name__}")
                 if ctx.prop_failures:
                     return
 
